@@ -15,6 +15,7 @@ TYPES = ['scalars', 'inner', 'suit', 'nested', 'renamed', 'node', 'wrap-inner', 
          'array3', 'one-tuple-int', 'rename-rules', 'kebab-units', 'with-rules', 'reversed', 'reversed-defaults', 'interleaved', 'rotated']
 PLAIN = ['scalars', 'inner', 'suit', 'nested', 'renamed', 'node', 'wrap-inner', 'wrap-suit', 'reuse', 'units', 'vec-unit',
          'vec-nothing', 'kebab-units', 'reversed', 'reversed-defaults', 'interleaved', 'rotated']   # no data-carrying enums, no tuples (to_value maps a tuple to an array, the schema-aware path to a record)
+FROMV_UNSUPPORTED = {'shape', 'with-shapes', 'rename-rules', 'with-rules', 'one-tuple-single', 'one-array-single', 'one-tuple-link', 'one-tuple-inner', 'pair', 'array3', 'one-tuple-int'}
 BLOCKS = ['', '1', '16', '100000']
 CFG = '(cfg 536870912 56 80)'
 RULE = ('corpus of 28 Rust types (derived structs and enums, tuples, fixed arrays, vectors of zero-width items, structs whose field order differs from that of a hand-written schema - reversed, interleaved, rotated, with defaults; enums under serde rename_all / rename_all_fields / rename) (integers of all widths, floats, char, String, Option, Vec, nested Vec, string-keyed '
@@ -74,6 +75,18 @@ def judge(run, out, model):
         if au is None or tag(au) != 'ok' or au[1] != '#':
             run.fail('block-size-wrong', 'a block announces a byte size that is not the size of its items (strict audit: %s)' % (show(au)[:40] if au is not None else 'none'), case)
             continue
+        # the other typed entry points (block size none): SpecificSingleObjectWriter / Reader, from_value, write_avro_datum_ref
+        if len(o) > 11 and tag(o[11]) == 'extra':
+            so_, fromv, wadr = o[11][1], o[11][2], o[11][3]
+            if show(so_) != '(ok 1 1 1 1)':
+                run.fail('typed-single-object-differs', 'SpecificSingleObjectWriter::write_ref / SpecificSingleObjectReader::read: count, header ++ same datum bytes, typed read back, generic read: %s' % show(so_), case)
+            if show(wadr) != '(ok 1 1)':
+                run.fail('write-avro-datum-ref-differs', 'write_avro_datum_ref: count / same bytes as write_ser: %s' % show(wadr), case)
+            if fromv != '1':
+                if t in FROMV_UNSUPPORTED and tag(fromv) == 'err':
+                    run.count('from-value-unsupported:' + t)          # tuples and tuple variants: the schema-less path has no record form for them
+                else:
+                    run.fail('from-value-differs', 'from_value on the generically decoded value: %s' % show(fromv), case)
         val = canon(m[1], True)
         per_value.setdefault((t, i), {})[b] = val
         # the schema-less generic path
